@@ -1,8 +1,8 @@
 SPECIFICATION FairSpec
 CONSTANTS
-  MaxClocks = 4
-  Rounds = 1
-  DVals = {1, 2, 3}
+  MaxClocks = 2
+  Rounds = 2
+  DVals = {1, 2, 3, 5}
   Overlap = TRUE
   Hist = FALSE
   Fault = "none"
